@@ -87,6 +87,27 @@ CHECKS = {
              "for the untyped sites.",
         technique="TLA+ literal semantics (TLC enumeration) + trace validation of acceptance and stored bytes",
         ref="DESIGN.md section 4 C09"),
+    "C10": dict(
+        engine="Bounds",
+        category="model_checking",
+        text="Bounds.tla is a small machine - print A; the access; print the memory (guard | "
+             "elements | guard); print B - over every container kind (array, slice, pointer to "
+             "array, pointer to pointer to array, pointer to slice, nested array outer / inner "
+             "index) x element kind (i32, struct) x access (read, write, +=, ^mut of the element) "
+             "x length x index 0..len+4 (run-time and literal), and over every sum kind (enum, "
+             "optional, nullable pointer, error union) x current variant x requested variant x "
+             "{#unwrap, one-argument #unwrap, #is_variant}. TLC checks on its state graph that an "
+             "access changes at most the addressed element and never a guard, and that a fault is "
+             "the last thing that happens with the memory untouched, and emits per behaviour the "
+             "prescribed output tokens and exit status (or the static rejection of an "
+             "out-of-range literal index of a fixed-size array). Every behaviour is replayed as a "
+             "real program: front end for acceptance, executable for stdout / status; faulting "
+             "behaviours get one executable each.",
+        note="quick: lengths {1,3} (1 614 behaviours, 734 faulting); thorough: lengths {1,5}. The "
+             "memory dump is decoded with the struct layout that C17 validates. Trusted: TLC, the "
+             "renderer / decoder in tools/props/c10.py, gcc as linker.",
+        technique="TLA+ state machine (TLC invariants + enumeration) + spec-to-implementation replay",
+        ref="DESIGN.md section 4 C10"),
     "C12": dict(
         engine="Ty/TyRelLaws",
         category="model_checking",
